@@ -28,6 +28,9 @@ LEVEL_NOTE = ("Path resolution is modelled too (C16b: an abstract file system wi
               "(double_resolve_leaks); the repaired code is what is modelled and compared on generated directory trees. Partial: copyfile being byte-exact, mimetypes and lxml's rewrite_links finding every link are the file "
               "system's and the libraries' behaviour: observed by the oracle, not proved. Trusted: Lean kernel; urlsplit/unquote as the harness applies them.")
 LEAN_MODULES = ["RecipeGrid.Props.C16", "RecipeGrid.Props.C16b"]
+TRUSTED_EXTRA = ["Model/Fs.lean as a description of CPython 3.12's pathlib.Path.resolve() / os.path.realpath(strict=False) and of the kernel's path lookup "
+                 "(symbolic links, ELOOP, 40-link limit): validated only by the correspondence on generated directory trees; the model gives up ('fuel') after "
+                 "4096 link expansions; '//' prefixes, relative roots and urlsplit's ValueError cases are not modelled"]
 SOURCES = ["recipe_grid/static_site/html_postprocessing.py", "recipe_grid/static_site/website.py", "recipe_grid/static_site/standalone_page.py"]
 RULE = ("link spellings: relative, ./, ../ chains (inside and escaping the root), root-absolute, percent-encoded, with query/fragment, external schemes, "
         "protocol-relative, in-page anchors, empty; targets: existing files with random bytes and names with spaces/#/%, directories, missing files, "
